@@ -4,6 +4,15 @@ import json
 import subprocess
 
 CLAIMED = {
+    "C01": dict(level="exploration",
+                text="Seeded search over pass schedules and layouts: the simulator owns the pass loop through a hook (forced extra passes after "
+                     "convergence, pass cap with per-pass symbol-state trace). Generated layouts for 6502/6809/68HC11/68000/8086 with auto-sized "
+                     "references around the size thresholds are decoded by an independent per-target decoder (every reference must encode its "
+                     "label's final address); a forced further pass must change neither code file nor MAP symbols (also for the whole golden "
+                     "corpus); a pass cap hit counts as non-termination only when the per-pass symbol state provably repeats.",
+                note="Trusted: hook H1 (pass schedule/trace), decoder tables transcribed from the manufacturers' manuals, codefile.py reader.",
+                technique="deterministic simulation: pass-schedule perturbation (forced passes, livelock cap with state-cycle detection) + decoder oracle",
+                design="4. C01"),
     "C04": dict(level="exploration",
                 text="Seeded search over generated data/reservation/ORG/SEGMENT/CPU/END programs on byte-, word- and 4-byte-granular "
                      "targets with run lengths at the 512-byte and 64 KiB boundaries, each assembled under several settings of the "
@@ -63,7 +72,7 @@ NA_PURE = {
     "C16": "metamorphic relation over source spelling; CR-LF/INCLUDE variants are different inputs, not schedules or faults",
     "C20": "diagnostic positions are a pure function of include/macro nesting of the input; no clock, fault or cross-file history involved",
 }
-PENDING = {k: "claimed in DESIGN.md; its check is still being built in this commit series" for k in ("C01", "C19")}
+PENDING = {k: "claimed in DESIGN.md; its check is still being built in this commit series" for k in ("C19",)}
 
 ORDER = ["C01", "C02", "C03", "C04", "C17", "C18", "C19"]
 
